@@ -118,7 +118,7 @@ PROPS = {
         not_decided=["the time at which a callback fires (only its mechanism, no over-read by the parser, is proved)"]),
     "C14": dict(
         functions=[PA + RFN + "teardown", PA + RFN + "read", PA + RFN + "handleDisconnect", PA + "WebSocketApp.run_forever",
-                   PA + "WebSocketApp._get_close_args", PA + "WebSocketApp._stop_ping_thread", PA + "WebSocketApp._callback", K + "WebSocket.close"],
+                   PA + "WebSocketApp._get_close_args", PA + "WebSocketApp._stop_ping_thread", PA + "WebSocketApp._callback", K + "WebSocket.close", SETSOCK + "@@reconnect=off,external"],
         functions_thorough=[SETSOCK, D_ + "DispatcherBase.reconnect"],
         lemmas=[], bounded=[appsim.bounded("C14")], trusted_base=[T_TRANSPORT, T_CB, T_SEL, T_THREAD],
         assumptions=[BOUNDED_COMPOSITION + " (here: the try/except/finally of run_forever reaches teardown on every exit path; the return value)"],
